@@ -20,10 +20,17 @@ type c09cfg struct {
 	scripts []string // per target: 4 characters over {o,f}: outcome of the probes after deployment
 	kinds   []string // failure kind per target
 	clients int
+	// slowSecond: the probe timeout (2.5 intervals) exceeds the interval and every target's second probe answers 2xx only after
+	// 1.3 intervals; the scripts describe the probes after it
+	slowSecond bool
 }
 
 func (c c09cfg) String() string {
-	return fmt.Sprintf("targets=%d scripts=%s kinds=%s clients=%d", len(c.scripts), strings.Join(c.scripts, ","), strings.Join(c.kinds, ","), c.clients)
+	r := fmt.Sprintf("targets=%d scripts=%s kinds=%s clients=%d", len(c.scripts), strings.Join(c.scripts, ","), strings.Join(c.kinds, ","), c.clients)
+	if c.slowSecond {
+		r += " slowSecond"
+	}
+	return r
 }
 
 func c09Configs(tier string) []c09cfg {
@@ -53,14 +60,14 @@ func c09Configs(tier string) []c09cfg {
 	kinds := []string{"refuse", "500", "slow"}
 	var cfgs []c09cfg
 	for i, s := range all {
-		cfgs = append(cfgs, c09cfg{[]string{s}, []string{kinds[i%3]}, 1})
+		cfgs = append(cfgs, c09cfg{[]string{s}, []string{kinds[i%3]}, 1, false})
 	}
 	for i, a := range all {
 		for j, b := range all {
 			if tier == "quick" && changes(a)+changes(b) > 3 {
 				continue
 			}
-			cfgs = append(cfgs, c09cfg{[]string{a, b}, []string{kinds[i%3], kinds[(j+1)%3]}, 1})
+			cfgs = append(cfgs, c09cfg{[]string{a, b}, []string{kinds[i%3], kinds[(j+1)%3]}, 1, false})
 		}
 	}
 	for i, a := range all {
@@ -76,7 +83,7 @@ func c09Configs(tier string) []c09cfg {
 				if tier == "quick" && (i+j+k)%4 != 0 {
 					continue
 				}
-				cfgs = append(cfgs, c09cfg{[]string{a, b, c}, []string{kinds[i%3], kinds[(j+1)%3], kinds[(k+2)%3]}, 1})
+				cfgs = append(cfgs, c09cfg{[]string{a, b, c}, []string{kinds[i%3], kinds[(j+1)%3], kinds[(k+2)%3]}, 1, false})
 			}
 		}
 	}
@@ -87,9 +94,15 @@ func c09Configs(tier string) []c09cfg {
 			sc := []string{pat[0], pat[0], pat[0]}
 			sc[pos] = pat[1]
 			for _, k := range []string{"refuse", "500"} {
-				cfgs = append(cfgs, c09cfg{sc, []string{k, k, k}, 1})
+				cfgs = append(cfgs, c09cfg{sc, []string{k, k, k}, 1, false})
 			}
 		}
+	}
+	// a probe that takes longer than the interval (but not longer than its timeout) followed by quick ones with the opposite outcome:
+	// results must take effect in the order the probes were sent
+	for _, sc := range [][]string{{"fffo"}, {"ffoo"}, {"fffo", "oooo"}, {"oooo", "fffo"}} {
+		ks := []string{"500", "refuse"}[:len(sc)]
+		cfgs = append(cfgs, c09cfg{scripts: sc, kinds: ks, clients: 1, slowSecond: true})
 	}
 	if tier != "quick" {
 		n := len(cfgs)
@@ -124,6 +137,9 @@ func c09Scenario(c c09cfg) *Scenario {
 		marks = nil
 		for i, n := range names {
 			steps := []memnet.ProbeStep{pOK()}
+			if c.slowSecond {
+				steps = append(steps, pOKAfter(vI+3*vI/10))
+			}
 			for _, ch := range c.scripts[i] {
 				if ch == 'o' {
 					steps = append(steps, pOK())
@@ -135,7 +151,11 @@ func c09Scenario(c c09cfg) *Scenario {
 			w.AddTarget(n, steps...)
 		}
 		t0 = w.Now()
-		if r := w.Deploy(deployArgs("s1", names, []string{host}, nil)); r.Err != nil {
+		da := deployArgs("s1", names, []string{host}, nil)
+		if c.slowSecond {
+			da.TargetOptions.HealthCheckConfig.Timeout = 2*vI + vI/2
+		}
+		if r := w.Deploy(da); r.Err != nil {
 			w.Note("setup: %v", r.Err)
 			return
 		}
@@ -182,20 +202,25 @@ func c09Scenario(c c09cfg) *Scenario {
 		// healthy set as a function of the sequence number
 		type pr struct {
 			seq    int
+			sent   int // sequence number of the probe's send event
 			target string
 			ok     bool
 		}
 		var prs []pr
 		for _, e := range evs {
 			if e.Kind == "probe-result" {
-				prs = append(prs, pr{e.Seq, e.Target, e.Status >= 200 && e.Status <= 299})
+				prs = append(prs, pr{e.Seq, e.Conn, e.Target, e.Status >= 200 && e.Status <= 299})
 			}
 		}
+		// a target's state is the outcome of its latest probe: of the probes answered so far the one sent last
+		// (the two notions coincide as long as a target has one probe outstanding at a time)
 		healthyAt := func(seq int) map[string]bool {
 			h := map[string]bool{}
+			lastSent := map[string]int{}
 			for _, p := range prs {
-				if p.seq < seq {
+				if p.seq < seq && p.sent >= lastSent[p.target] {
 					h[p.target] = p.ok
+					lastSent[p.target] = p.sent
 				}
 			}
 			res := map[string]bool{}
@@ -267,7 +292,7 @@ func c09Scenario(c c09cfg) *Scenario {
 		}
 		flush()
 		// probing cadence (exact on the virtual clock only without stalls)
-		if !w.HadStall() {
+		if !w.HadStall() && !c.slowSecond {
 			end := endAt
 			for _, n := range names {
 				var times []time.Duration
